@@ -416,8 +416,11 @@ def unconfigureGen (cfg : Cfg) (st : St) (impl : String) : St :=
   | other => step cfg st (.unconfigure other)
 
 /-- what `build()` and the warnings plugin guarantee around the hooks: `pytask_unconfigure` is called unconditionally once
-configuration succeeded, and `catch_warnings_for_item` runs the task inside `warnings.catch_warnings()` -/
-def frameFactsOk : Bool := warningsIsolated && buildUnconfigureUnconditional && Generated.unconfigureAfterLadder
+configuration succeeded, `catch_warnings_for_item` runs the task inside `warnings.catch_warnings()`, and
+`warnings.pytask_post_parse` only registers the plugin unless `disable_warnings` (it never touches the process-wide
+`warnings.filters`: the model's `step (.postParse "warnings")` is the identity) -/
+def frameFactsOk : Bool :=
+  warningsIsolated && warningsPostParseRegistersOnly && buildUnconfigureUnconditional && Generated.unconfigureAfterLadder
 
 /-! ### from `task.report_sections` to `report.sections` (reports.py) -/
 
